@@ -1,15 +1,15 @@
 // bounded stand-in driver (appended to acts/src/package/tests/subflow.rs of a scratch copy): property C15.
 // A calling act stays open until its child process has terminated and is then closed exactly once, in the way the child ended:
 // completed / error (with the child's code and message) / aborted / skipped; a missing target model fails the calling act.
-// 14 scenarios (incl. a calling process that has left the process cache -- its image is in the store -- when the child ends; a child whose outputs are named like the error fields; a calling act whose own catch takes the child's error; a calling act with declared outputs whose child errors / aborts): a timeout rule on the calling act finishing while the child is still open; the child's single irq act answered next / error(code) / abort / skip (the child then completes), a child script that throws (engine error, empty
+// 16 scenarios (incl. a call chain of depth 2 -- main -> w2 -> w3 -- whose innermost act is completed / failed: every return travels one level up; a calling process that has left the process cache -- its image is in the store -- when the child ends; a child whose outputs are named like the error fields; a calling act whose own catch takes the child's error; a calling act with declared outputs whose child errors / aborts): a timeout rule on the calling act finishing while the child is still open; the child's single irq act answered next / error(code) / abort / skip (the child then completes), a child script that throws (engine error, empty
 // code), a missing model at depth 1 and at depth 2.
 #[tokio::test]
 async fn verif_replay_hist_subflow_return() {
     use std::sync::{Arc, Mutex};
     let mut bad: Vec<String> = Vec::new();
     #[derive(Clone, Copy, Debug, PartialEq)]
-    enum Sc { Next, ErrorCode, Abort, Skip, ScriptThrows, Missing1, Missing2, TimeoutWhileChildOpen, ErrorCodeDeclaredOutputs, AbortDeclaredOutputs, ErrorCaughtByCallingAct, ErrorChildOutputsNamedLikeTheError, ParentEvictedNext, ParentEvictedError }
-    for sc in [Sc::Next, Sc::ErrorCode, Sc::Abort, Sc::Skip, Sc::ScriptThrows, Sc::Missing1, Sc::Missing2, Sc::TimeoutWhileChildOpen, Sc::ErrorCodeDeclaredOutputs, Sc::AbortDeclaredOutputs, Sc::ErrorCaughtByCallingAct, Sc::ErrorChildOutputsNamedLikeTheError, Sc::ParentEvictedNext, Sc::ParentEvictedError] {
+    enum Sc { Next, ErrorCode, Abort, Skip, ScriptThrows, Missing1, Missing2, TimeoutWhileChildOpen, ErrorCodeDeclaredOutputs, AbortDeclaredOutputs, ErrorCaughtByCallingAct, ErrorChildOutputsNamedLikeTheError, ParentEvictedNext, ParentEvictedError, Depth2Next, Depth2Error }
+    for sc in [Sc::Next, Sc::ErrorCode, Sc::Abort, Sc::Skip, Sc::ScriptThrows, Sc::Missing1, Sc::Missing2, Sc::TimeoutWhileChildOpen, Sc::ErrorCodeDeclaredOutputs, Sc::AbortDeclaredOutputs, Sc::ErrorCaughtByCallingAct, Sc::ErrorChildOutputsNamedLikeTheError, Sc::ParentEvictedNext, Sc::ParentEvictedError, Sc::Depth2Next, Sc::Depth2Error] {
         let target = if sc == Sc::Missing1 { "not_deployed" } else { "w2" };
         let mut main = Workflow::new().with_id("main").with_step(|step| step.with_id("step1"));
         if sc == Sc::TimeoutWhileChildOpen {
@@ -32,12 +32,16 @@ async fn verif_replay_hist_subflow_return() {
         let w2 = match sc {
             Sc::ScriptThrows => Workflow::new().with_id("w2").with_step(|step| step.with_id("s1").with_act(Act::code(r#"throw new Error("boom in child");"#).with_id("code1"))),
             Sc::Missing2 => Workflow::new().with_id("w2").with_step(|step| step.with_id("s1").with_act(Act::subflow(json!({ "to": "not_deployed" })).with_id("call2"))),
+            Sc::Depth2Next | Sc::Depth2Error => Workflow::new().with_id("w2").with_step(|step| step.with_id("s1").with_act(Act::subflow(json!({ "to": "w3" })).with_id("call2"))),
             Sc::ErrorChildOutputsNamedLikeTheError => Workflow::new().with_id("w2").with_output("message", json!(null)).with_output("ecode", json!(null))
                 .with_step(|step| step.with_id("s1").with_act(Act::irq(|act| act.with_key("act1")).with_id("act1"))),
             _ => Workflow::new().with_id("w2").with_step(|step| step.with_id("s1").with_act(Act::irq(|act| act.with_key("act1")).with_id("act1"))),
         };
         let (proc, scher, emitter, _tx, _rx) = create_proc_signal::<()>(&mut main, &utils::longid());
         if sc != Sc::Missing1 { Executor::new(&scher).model().deploy(&w2).unwrap(); }
+        if sc == Sc::Depth2Next || sc == Sc::Depth2Error {
+            Executor::new(&scher).model().deploy(&Workflow::new().with_id("w3").with_step(|step| step.with_id("s1").with_act(Act::irq(|act| act.with_key("act1")).with_id("act1")))).unwrap();
+        }
         let call_msgs: Arc<Mutex<Vec<String>>> = Arc::new(Mutex::new(Vec::new()));
         let cm = call_msgs.clone();
         let child_done_before: Arc<Mutex<Option<bool>>> = Arc::new(Mutex::new(None));
@@ -55,8 +59,8 @@ async fn verif_replay_hist_subflow_return() {
                 if sc == Sc::ParentEvictedNext || sc == Sc::ParentEvictedError { cache.uncache(&main_pid2); }
                 let mut options = Vars::new();
                 let action = match sc {
-                    Sc::Next | Sc::ParentEvictedNext => EventAction::Next,
-                    Sc::ParentEvictedError |
+                    Sc::Next | Sc::ParentEvictedNext | Sc::Depth2Next => EventAction::Next,
+                    Sc::ParentEvictedError | Sc::Depth2Error |
                     Sc::ErrorCode | Sc::ErrorCodeDeclaredOutputs | Sc::ErrorCaughtByCallingAct | Sc::ErrorChildOutputsNamedLikeTheError => { options.set(consts::ACT_ERR_CODE, "err1"); options.set(consts::ACT_ERR_MESSAGE, "sub workflow error"); EventAction::Error }
                     Sc::Abort | Sc::AbortDeclaredOutputs => EventAction::Abort,
                     _ => EventAction::Skip,
@@ -99,7 +103,7 @@ async fn verif_replay_hist_subflow_return() {
         let call1 = proc.task_by_nid("call1").first().cloned();
         let st = call1.as_ref().map(|t| t.state());
         // a skipped act does not skip the child process: the child completes, so does the calling act
-        let want = match sc { Sc::Next | Sc::Skip | Sc::ErrorCaughtByCallingAct | Sc::ParentEvictedNext => TaskState::Completed, Sc::Abort | Sc::AbortDeclaredOutputs => TaskState::Aborted, _ => TaskState::Error };
+        let want = match sc { Sc::Next | Sc::Skip | Sc::ErrorCaughtByCallingAct | Sc::ParentEvictedNext | Sc::Depth2Next => TaskState::Completed, Sc::Abort | Sc::AbortDeclaredOutputs => TaskState::Aborted, _ => TaskState::Error };
         let mut diffs: Vec<String> = Vec::new();
         if st != Some(want.clone()) { diffs.push(format!("the calling act ends {st:?}, the child's ending asks for {want:?} (main process: {})", proc.state())); }
         if !proc.state().is_completed() { diffs.push(format!("the calling process is still {} 5 s after the child ended", proc.state())); }
@@ -111,7 +115,7 @@ async fn verif_replay_hist_subflow_return() {
         if let Some(t) = &call1 {
             match sc {
                 Sc::ErrorChildOutputsNamedLikeTheError => { let e = t.err(); if e.as_ref().map(|e| (e.ecode.as_str(), e.message.as_str())) != Some(("err1", "sub workflow error")) { diffs.push(format!("the calling act does not carry the child's error code and message but {e:?}")); } }
-                Sc::ErrorCode | Sc::ErrorCodeDeclaredOutputs | Sc::ParentEvictedError => { let e = t.err(); if e.as_ref().map(|e| e.ecode.as_str()) != Some("err1") { diffs.push(format!("the calling act does not carry the child's error code: {e:?}")); } }
+                Sc::ErrorCode | Sc::ErrorCodeDeclaredOutputs | Sc::ParentEvictedError | Sc::Depth2Error => { let e = t.err(); if e.as_ref().map(|e| e.ecode.as_str()) != Some("err1") { diffs.push(format!("the calling act does not carry the child's error code: {e:?}")); } }
                 Sc::ScriptThrows => { let e = t.err(); if !e.as_ref().map(|e| e.message.contains("boom in child")).unwrap_or(false) { diffs.push(format!("the calling act does not carry the child's error message: {e:?}")); } }
                 _ => {}
             }
